@@ -72,6 +72,25 @@ CHECKS = {
             "property's predicates on real files, the model's exact placement is compared only as drift information.",
             "TLA+ spec + TLC (safety + liveness, deviations as model regressions), exhaustive/simulated scenario replay on the real file channel",
             "DESIGN.md §3 C07"),
+    "C05": ("model_checking",
+            "Event.tla models the event store and its options (Custom, Payload with a TLA+ hex function, Source/DestinationAddr for "
+            "tcp/udp/other addresses, MergeFrom keeps, CopyFrom overwrites); TLC checks MergeKeeps, CopyOverwrites and PayloadFidelity "
+            "as action properties over every reachable store and prints every (store, option) transition, each replayed as one "
+            "implementation test on the real event package (ToMap, raw payload, json.Marshal key set); event.Payload over all 65,793 "
+            "byte strings of length <= 2, seeded strings up to 64 KiB and every address kind is validated by TLC against Event_Trace.",
+            "The raw 'payload' string is compared by the harness (not representable in TLA+ for arbitrary bytes); JSON "
+            "serialisability of service-emitted events is additionally observed by the capture channel in the service explorations.",
+            "TLA+ spec + TLC, one implementation test per model transition, TLC trace validation over flat input spaces",
+            "DESIGN.md §3 C05"),
+    "C11": ("model_checking",
+            "FtpFs.tla models lexical path resolution (relative to the working directory, '.', '', '..' clamped at the root), "
+            "ChangeDir and the locations touched by driver operations; TLC checks Contained and CwdRooted and prints every transition "
+            "(15 working directories x 7,812 paths of <= 5 components over {a, b, .., ., ''}, absolute and relative = 117k); each is "
+            "one implementation test on the real filesystem.Htfs (RealPath, ChangeDir, Cwd) over a real tree with look-alike "
+            "directories outside the root; an escape is a violation, a different in-root resolution is reported as drift.",
+            "No symlinks inside the root; FTP command sequences against the running service are a second level (see DESIGN.md).",
+            "TLA+ spec + TLC exhaustive, one implementation test per model transition",
+            "DESIGN.md §3 C11"),
 }
 
 NOT_YET = "check not built yet in this session (see DESIGN.md §10 for the order of construction)"
